@@ -1,4 +1,5 @@
 import AFV.Driver.Proto
+import AFV.Spec.Front
 /-!
 Driver ops for C13 / C14 (join = exhaustive combination; accelerations never change the result).
 
@@ -23,32 +24,11 @@ Vectors of different lengths are malformed input (the harness aligns columns bef
 namespace AFV.Driver.C13
 open Lean AFV.Proto
 
-abbrev Vec := List Int
-
-def leqAll : Vec → Vec → Bool
-  | [], [] => true
-  | a :: as, b :: bs => decide (a ≤ b) && leqAll as bs
-  | _, _ => false
-
-/-- strict dominance: `≤` everywhere and different -/
-def dom (a b : Vec) : Bool := leqAll a b && decide (a ≠ b)
-
-def lexLe : Vec → Vec → Bool
-  | [], _ => true
-  | _ :: _, [] => false
-  | a :: as, b :: bs => decide (a < b) || (decide (a = b) && lexLe as bs)
-
-def dedupAdj : List Vec → List Vec
-  | [] => []
-  | [a] => [a]
-  | a :: b :: l => if a = b then dedupAdj (b :: l) else a :: dedupAdj (b :: l)
-
-/-- canonical form of a set of vectors -/
-def canon (l : List Vec) : List Vec := dedupAdj (l.mergeSort lexLe)
-
-/-- all-pairs Pareto front, canonical -/
-def front (rows : List Vec) : List Vec :=
-  canon (rows.filter (fun r => !(rows.any (fun s => dom s r))))
+/-! `front` is `AFV.Front.frontFast` (proved equal to the all-pairs definition `AFV.Front.front` in `Lemmas/Front.lean`);
+`leqAll` is the coordinatewise order of the same file. -/
+abbrev Vec := AFV.Front.Vec
+abbrev leqAll : Vec → Vec → Bool := AFV.Front.leqAll
+abbrev front (rows : List Vec) : List Vec := AFV.Front.frontFast rows
 
 /-- slack allowed between two coordinates: ppm · max(|a|,|b|) / 10^6 + 1, kept as a numerator over 10^6 -/
 def slackNum (ppm : Nat) (a b : Int) : Int := (ppm : Int) * (max a.natAbs b.natAbs : Nat) + 1000000
